@@ -186,6 +186,17 @@ def run_prims(ctx):
             else: v = rng.choice([0, -86400 + 1800 if False else -64800, 64800, rng.randrange(-64800, 64801)]); w.write_offset(Offset.from_seconds(v))
             items.append((kind, v))
         data = b.getvalue(); st = io.BytesIO(data)
+        if trial % 3 == 2:
+            # a stream that delivers its bytes in short reads (a pipe, a socket, an unbuffered file): read(n) may return fewer than n bytes
+            class Chunked(io.RawIOBase):
+                def __init__(self, raw, k): self.raw = raw; self.k = k
+                def readable(self): return True
+                def read(self, n=-1):
+                    return self.raw.read(self.k if n is None or n < 0 else min(n, self.k))
+                def readinto(self, buf):
+                    d = self.read(len(buf)); buf[:len(d)] = d; return len(d)
+                def tell(self): return self.raw.tell()
+            st = Chunked(io.BytesIO(data), rng.choice([1, 2, 3, 7, 64]))
         r = R._ctor(st, None if pl is None else list(w._DateTimeZoneWriter__string_pool) if hasattr(w, "_DateTimeZoneWriter__string_pool") else pl)
         case = {"kind": "peekseq", "items": [[k, v if not isinstance(v, str) else v[:8]] for k, v in items], "pool": pl is not None}
         ctx.ev(); ctx.counters["peek_sequences"] += 1; ctx.key(("peekseq", len(items), pl is not None, data[:1] == b"\0"))
